@@ -437,6 +437,29 @@ func scByzFrames(r *Run) {
 			i = 2
 		}
 	}
+	// open requests that arrive while the muxer is being stopped: the peer's last frames are on their way when the
+	// application calls Stop
+	if r.Intn("latereq", 3) == 0 {
+		pp := byte(1) // the peer's parity
+		if byz == mp.A {
+			pp = 0
+		}
+		for q := 0; q < 1+r.Intn("latereq", 6); q++ {
+			fl := byte(0x01)
+			if r.Intn("latereq", 2) == 0 {
+				fl |= 1 << 2
+			}
+			id := pp + byte(2*(8+r.Intn("latereq", 100)))
+			n.Inject(byzAddr, honestAddr, []byte{id, fl, 0, 0, byte(common.PFTube), 0, 0, 0, 0, 0, 0, 0}, time.Duration(r.Intn("latereq", 3000))*time.Microsecond, "req-during-stop")
+		}
+		r.CountFault("open-requests-arriving-during-stop", 1)
+		if r.Intn("latereq", 2) == 0 {
+			// ... and the goroutines that meet (the muxer's receiver, Stop) are perturbed
+			r.ArmYields([]string{[]string{"tubes.(*Muxer).receiver", "tubes.(*Muxer).Stop", "tubes.(*Muxer)"}[r.Intn("latereq", 3)]}, 1+r.Intn("latereq", 6), 1+r.Intn("latereq", 40), []float64{0.1, 0.5, 1}[r.Intn("latereq", 3)])
+			r.YieldsOn(true)
+		}
+		time.Sleep(n.Cfg.Latency + time.Duration(r.Intn("latereq", 3000))*time.Microsecond - 1500*time.Microsecond)
+	}
 	// oracle 2: the honest muxer can still be stopped
 	r.Obligation(1)
 	r.Logf("stopping the honest muxer")
